@@ -1312,7 +1312,7 @@ class C11(TwoPass):
     policies = ["af"]
     per_base_quick = 40
     rule = ("base histories leaving 1-4 WAL files, clean drop; a fault-free open is traced to count the read_dir / open / read calls recovery makes; then for every n below that count "
-            "(sampled) a fault plan 'the n-th call of that site fails, once or from then on, with PermissionDenied / Other / Interrupted / NotFound' is armed and open is called "
+            "(sampled) a fault plan 'the n-th call of that site fails, once or from then on, with PermissionDenied / Other / Interrupted / NotFound / UnexpectedEof' is armed and open is called "
             "with a deadline; non-trivial = the injected failure was reached; distinct = distinct transcripts")
     oracle_text = "with an armed failure that recovery reaches, open must return an I/O error promptly (never Ok, never Corruption, never hang past the deadline)"
 
@@ -1344,8 +1344,9 @@ class C11(TwoPass):
         rng.shuffle(plans)
         base = cmds[:-1]
         for (site, nth) in plans[: self.per_base()]:
-            kind = rng.choice(["PermissionDenied", "Other", "Interrupted", "NotFound"])
+            kind = rng.choice(["PermissionDenied", "Other", "Interrupted", "NotFound", "UnexpectedEof"])
             pers = rng.choice(["o", "p"])
+            self.stats["kind_" + kind] = self.stats.get("kind_" + kind, 0) + 1
             out.append(("%s_f%s%d%s" % (bid, site, nth, pers), base + ["fault %s %d %s %s" % (site, nth, pers, kind), "open af"]))
             self.stats["fault_plans"] = self.stats.get("fault_plans", 0) + 1
         return out
@@ -1362,8 +1363,16 @@ class C11(TwoPass):
         if len(cmds) < 2 or not cmds[-2].startswith("fault ") or not cmds[-1].startswith("open "):
             return vs       # not a fault-injection case (e.g. an over-shrunk script): nothing to judge
         out = outcome_of(tr[-1]) or ""
+        f = cmds[-2].split()
+        # std's read_exact reports a short read as ErrorKind::UnexpectedEof, and no OS error decodes to that
+        # kind: a read failing with it IS the end-of-file signal of the API (OpenIo.reportable excludes
+        # exactly this plan; C11_absorbed_* say what happens instead).  Only hang-freedom and the
+        # model/implementation diff are judged for it.
+        in_band_eof = (f[1] == "read" and f[4] == "UnexpectedEof")
         if "err=Hang" in out:
             vs.append({"msg": "`%s`: open did not return within the deadline" % cmds[-2], "shape": "io-hang"})
+        elif in_band_eof:
+            self.stats["in_band_eof_plans"] = self.stats.get("in_band_eof_plans", 0) + 1
         elif "err=Io:" not in out:
             vs.append({"msg": "`%s`: open returned %r instead of an I/O error" % (cmds[-2], out), "shape": "io-swallowed"})
         return vs
